@@ -137,7 +137,10 @@ func (s *Subscription) traverse(state gcState, pending bool, cb traverseCallback
 		return
 	}
 
+	// A reference is only counted as sent if the resource holding it is
+	// sent, and it is not still loading for an event.
+	unsent := s.state != stateSent && s.state != stateDeleted
 	for _, ref := range s.refs {
-		ref.sub.traverse(state, ref.pending, cb)
+		ref.sub.traverse(state, unsent || ref.pending, cb)
 	}
 }
